@@ -8,6 +8,7 @@
               k[<w>.<w>...] words the stack scan will see from now on: <k> = address of
                             object k, u<k> = that address + 4 (unaligned)
               c  GC_Mark+GC_Sweep     z  GC_Sweep alone     S stop   T start    m<k> mem
+              Q  toggle brief dumps: the slot field becomes #<FNV-1a-32 of the slot text>
      output: steps separated by " | ", each
        <out>;<events>;<nslots>;<nitems>;<mitems>;<min>;<max>;<running>;<npending>;<slot>,<slot>..;<membits>
        events  r<k> (GC_Rem issued while running) f<k> (finalised), in order of occurrence
@@ -56,6 +57,12 @@ let model_case line =
     let out_s = function OOk -> "ok" | OBool b -> if b then "true" else "false"
                        | OCrash -> "CRASH" | OFuel -> "OUTOFFUEL" in
     let offs p = n_to_dec (n_sub (n_div p eight) b) in
+    let brief = ref false in
+    let stepno = ref 0 in
+    let fnv s =
+      let h = ref 2166136261 in
+      String.iter (fun c -> h := ((!h lxor Char.code c) * 16777619) land 0xFFFFFFFF) s;
+      Printf.sprintf "#%08x" !h in
     let dump g nev_before =
       let ev = evs g in
       let rec take l n = if n <= 0 then [] else match l with [] -> [] | x :: r -> x :: take r (n - 1) in
@@ -70,10 +77,11 @@ let model_case line =
       let mn = if n_eqb (minptr g) uintptr_max then "-" else offs (minptr g) in
       let mx = if n_eqb (maxptr g) (n_of_i 0) then "-" else offs (maxptr g) in
       let mem = String.concat "" (List.map (fun k ->
+        if !brief && (k + !stepno) mod 8 <> 0 then "" else
         match rg_mem g (addr k) with Some true -> "1" | Some false -> "0" | None -> "F") o.ids) in
       Printf.sprintf "%s;%d;%d;%d;%s;%s;%d;%d;%s;%s" es (List.length sl) (int_of_nat (nitems g))
         (int_of_nat (mitems g)) mn mx (if running g then 1 else 0) (List.length (pending g))
-        (String.concat "," ss) mem in
+        (let t = String.concat "," ss in if !brief then fnv t else t) mem in
     let buf = Buffer.create 512 in
     Buffer.add_string buf ("new;" ^ dump rg_init 0);
     let words = ref [] in
@@ -81,6 +89,7 @@ let model_case line =
     let _ = List.fold_left (fun g tok ->
       let rest = String.sub tok 1 (String.length tok - 1) in
       let nev = List.length (evs g) in
+      incr stepno;
       let apply o = let (g', out) = step g o in
         Buffer.add_string buf (" | " ^ out_s out ^ ";" ^ dump g' nev); g' in
       let same () = Buffer.add_string buf (" | ok;" ^ dump g nev); g in
@@ -97,6 +106,7 @@ let model_case line =
         same ()
       | 'c' -> apply (OCollect !words)
       | 'z' -> apply OSweep
+      | 'Q' -> brief := not !brief; same ()
       | 'S' -> apply OStop
       | 'T' -> apply OStart
       | 'm' -> apply (OMem (addr (int_of_string rest)))
